@@ -54,24 +54,29 @@ def parseSnap : SExp → Option Snap
            written := (← w.nat?), blocked := (← bl.mapM? SExp.nat?) }
   | _ => none
 
+def parseAtReturn : SExp → Option (Nat × Nat)
+  | .list [.atom "atreturn", w, l] => do pure ((← w.nat?), (← l.nat?))
+  | _ => none
+
 /-- The observation; `true` in the second component: it carries a `(snaps …)` element ("channel
     full" scenarios: the script holds the batching loop up, or the writer has a chosen capacity). -/
 def parseObs (x : SExp) : Option (Obs × Bool) := do
-  let core (acc bs : List SExp) (st c b i : SExp) : Option Obs := do
+  let core (acc bs : List SExp) (st c b i ar : SExp) : Option Obs := do
     let accepted ← acc.mapM? SExp.nat?
     let batches ← bs.mapM? fun b => do
       (← b.list?).mapM? fun
         | .list [p, s, k] => do pure ((← p.nat?), (← s.nat?), (← k.nat?))
         | _ => none
+    let (w, l) ← parseAtReturn ar
     pure { accepted, batches, status := (← parseStatus st), leftChan := (← c.nat?), leftBuf := (← b.nat?),
-           inflight := (← i.nat?) }
+           inflight := (← i.nat?), writtenAtReturn := w, lateCalls := l }
   match x with
   | .list [.list (.atom "accepted" :: acc), .list (.atom "batches" :: bs), .list [.atom "close", st],
-           .list [.atom "left", c, b], .list [.atom "inflight", i]] =>
-    pure ((← core acc bs st c b i), false)
+           .list [.atom "left", c, b], .list [.atom "inflight", i], ar] =>
+    pure ((← core acc bs st c b i ar), false)
   | .list [.list (.atom "accepted" :: acc), .list (.atom "batches" :: bs), .list [.atom "close", st],
-           .list [.atom "left", c, b], .list [.atom "inflight", i], .list (.atom "snaps" :: sn)] =>
-    let o ← core acc bs st c b i
+           .list [.atom "left", c, b], .list [.atom "inflight", i], ar, .list (.atom "snaps" :: sn)] =>
+    let o ← core acc bs st c b i ar
     pure ({ o with snaps := (← sn.mapM? parseSnap) }, true)
   | _ => none
 
@@ -95,7 +100,8 @@ def moves (n : Nat) : List Step := (List.replicate n [Step.batchRecv, Step.batch
 def schedOf (totals : List Nat) (o : Obs) : Option (List Step) := do
   let shape := o.batches.map fun b => b.map (·.1)
   let written := shape.flatten
-  let mut sched : List Step := []
+  -- a writer that lives long enough for a script to reach it: both workers have been scheduled
+  let mut sched : List Step := bothStarted
   for b in shape do
     sched := sched ++ b.map Step.publish ++ moves b.length ++ [.writerSelect, .writerPop, .writeDone]
   -- what was accepted and never written goes through channel and hand into the buffer
@@ -171,7 +177,7 @@ def segmentsOf (totals : List Nat) (o : Obs) : Option (List (List Step)) := do
     if w > t then none
     order := order ++ (List.replicate (t - w) p).toArray
     p := p + 1
-  let mut r : Recon := {}
+  let mut r : Recon := { seg := bothStarted.toArray }
   let mut segs : Array (List Step) := #[]
   let mut snaps := o.snaps
   let mut done := 0          -- events in the batches processed so far
@@ -223,7 +229,17 @@ def printSnap (sn : Snap) : SExp :=
          .list [.atom "hand", .ofNat sn.hand], .list [.atom "buf", .ofNat sn.buf],
          .list [.atom "written", .ofNat sn.written], .list (.atom "blocked" :: sn.blocked.map SExp.ofNat)]
 
-def printModel (prods : List Producer) (s : State) : SExp :=
+/-- Whatever can still happen in state `s`, given every chance: all steps but publications, over and
+    over (steps that are not enabled are skipped). -/
+def fairTail (s : State) : List Step := (List.replicate (3 * s.pubs.length + 8) Step.internal).flatten
+
+/-- The model's at-return snapshot: events handed to the write function when Close() returned and
+    the write calls that begin afterwards when everything is given every chance to run. -/
+def atReturnOf (c : Cfg) (s : State) : Nat × Nat :=
+  if s.closeCompleted then ((delivered s).length, (run c s (fairTail s)).written.length - s.written.length) else (0, 0)
+
+def printModel (c : Cfg) (prods : List Producer) (s : State) : SExp :=
+  let ar := atReturnOf c s
   let acc := (List.range prods.length).map fun p => SExp.ofNat (countOf p s.pubs)
   let bs := s.written.map fun b => SExp.list (b.map fun e =>
     let key := match prods[e.1]? with
@@ -232,7 +248,8 @@ def printModel (prods : List Producer) (s : State) : SExp :=
     SExp.list [.ofNat e.1, .ofNat e.2, .ofNat key])
   .list [.list (.atom "accepted" :: acc), .list (.atom "batches" :: bs), .list [.atom "close", .atom (statusOf s)],
          .list [.atom "left", .ofNat (s.chan.length + s.hand.toList.length), .ofNat s.buf.length],
-         .list [.atom "inflight", .ofNat (if s.wpc == .writing then 1 else 0)]]
+         .list [.atom "inflight", .ofNat (if s.wpc == .writing then 1 else 0)],
+         .list [.atom "atreturn", .ofNat ar.1, .ofNat ar.2]]
 
 def lostCount (o : Obs) : Nat := o.accepted.foldl (· + ·) 0 - o.delivered.length
 
@@ -248,11 +265,13 @@ def hypOf (cap : Nat) (prods : List Producer) (o : Obs) : String :=
 
 def stormLine (n ok hung : Nat) : String :=
   -- the two ways "nothing published, Close at some instant" can go in the model
-  let okRun := runStrict codeCfg init [.close, .batchDone, .broadcast, .writerSelect, .closeReturn]
-  let hungRun := runStrict codeCfg init [.writerSelect, .close, .batchDone, .broadcast, .writerPop]
-  let okPossible := match okRun with
-    | some s => s.closeCompleted
-    | none => false
+  let okRun := runStrict codeCfg init (bothStarted ++ [.close, .batchDone, .broadcast, .writerSelect, .closeReturn])
+  -- … and with Close() called before either worker has been scheduled
+  let okRun' := runStrict codeCfg init ([.close] ++ bothStarted ++ [.batchDone, .broadcast, .writerSelect, .closeReturn])
+  let hungRun := runStrict codeCfg init (bothStarted ++ [.writerSelect, .close, .batchDone, .broadcast, .writerPop])
+  let okPossible := match okRun, okRun' with
+    | some s, some s' => s.closeCompleted && s'.closeCompleted
+    | _, _ => false
   let hungPossible := match hungRun with
     | some s => statusOf s == "hung"
     | none => false
@@ -374,11 +393,73 @@ def registryLine (inp impl : SExp) : String :=
   | none, _ => "BADINPUT\t0\t-"
   | _, none => "REJECT:unparsable-observation\t0\t-"
 
+/-! ## the birth stream: `(birth (procs P) (busy B) (lat us) (gap g) (prods …) (rounds (n0 n1 …) …))`
+
+  Per round a fresh writer: the controller publishes `n_p` events of every producer `p` (producer by
+  producer), and calls Close() at once, in the same goroutine, in a process whose scheduler has had
+  little or no chance to run the two workers the constructor has just spawned.  The model schedule:
+  everything is published, `close`, and only THEN the workers are scheduled for the first time
+  (`batchStart`, `writerStart`), move and write what the observation shows, finish, `closeReturn`.
+  (Whether the workers really had not run yet cannot be seen from outside; by
+  `C19_close_waits_for_both_workers` / `C19_flushed_when_close_returns` the observation is the same
+  wherever the start steps stand.) -/
+
+def parseBirthIn : SExp → Option (List Producer × List (List Nat))
+  | .list [.atom "birth", .list [.atom "procs", p], .list [.atom "busy", b], .list [.atom "lat", l],
+           .list [.atom "gap", g], prodsX, .list (.atom "rounds" :: rs)] => do
+    let _ ← p.nat?
+    let _ ← b.nat?
+    let _ ← l.nat?
+    let _ ← g.nat?
+    let prods ← parseProds prodsX
+    let rounds ← rs.mapM? fun r => do (← r.list?).mapM? SExp.nat?
+    if rounds.all (fun r => r.length == prods.length) then pure (prods, rounds) else none
+  | _ => none
+
+/-- The model schedule of one round for an observation of this shape. -/
+def schedOfBirth (totals : List Nat) (o : Obs) : Option (List Step) := do
+  let shape := o.batches.map fun b => b.map (·.1)
+  let nWritten := shape.flatten.length
+  if nWritten > totals.sum then none
+  let pubs : List Step := ((List.range totals.length).map fun p => List.replicate (totals.getD p 0) (Step.publish p)).flatten
+  let mut sched : List Step := pubs ++ [.close, .batchStart, .writerStart]
+  for b in shape do
+    sched := sched ++ moves b.length ++ [.writerSelect, .writerPop, .writeDone]
+  sched := sched ++ moves (totals.sum - nWritten)
+  match o.status with
+  | .returned => pure (sched ++ [.batchDone, .broadcast, .writerSelect, .closeReturn])
+  | _ => none
+
+def birthLine (inp impl : SExp) : String :=
+  match parseBirthIn inp, impl with
+  | some (prods, rounds), .list (.atom "birth" :: obsX) =>
+    if obsX.length != rounds.length then "REJECT:one-observation-per-round-expected\t0\t-"
+    else
+      let rows := (rounds.zip obsX).map fun (totals, ox) =>
+        match parseObs ox with
+        | some (o, false) =>
+          let spec := Spec codeCfg.batchMax codeCfg.cap prods o
+          let model : SExp :=
+            match schedOfBirth totals o with
+            | none => .atom "REJECT:more-written-than-accepted-or-close-did-not-return"
+            | some sched =>
+              match runStrict codeCfg init sched with
+              | none => .atom "REJECT:reconstructed-schedule-not-enabled"
+              | some s => printModel codeCfg prods s
+          (model, spec)
+        | _ => (.atom "REJECT:unparsable-observation", false)
+      let model := toString (SExp.list (.atom "birth" :: rows.map (·.1)))
+      let spec := rows.all (·.2)
+      s!"{model}\t{if spec then 1 else 0}\t-"
+  | none, _ => "BADINPUT\t0\t-"
+  | _, _ => "REJECT:unparsable-observation\t0\t-"
+
 def processLine (line : String) : String :=
   match SExp.fields line with
   | [inp, impl] =>
     match SExp.parse inp, SExp.parse impl with
     | some (.list (.atom "registry" :: rest)), some implX => registryLine (.list (.atom "registry" :: rest)) implX
+    | some (.list (.atom "birth" :: rest)), some implX => birthLine (.list (.atom "birth" :: rest)) implX
     | some (.list [.atom "storm", n]), some (.list [.atom "storm", n', .atom "ok", a, .atom "hung", b]) =>
       match n.nat?, n'.nat?, a.nat?, b.nat? with
       | some n, some n', some a, some b => if n == n' then stormLine n a b else "REJECT:storm-size\t0\t-"
@@ -403,7 +484,7 @@ def processLine (line : String) : String :=
               | some sched =>
                 match runStrict cfg init sched with
                 | none => "REJECT:reconstructed-schedule-not-enabled"
-                | some s => toString (printModel prods s)
+                | some s => toString (printModel cfg prods s)
             else if atSnaps.length != o.snaps.length then "REJECT:one-snapshot-per-await-blocked-expected"
             else
               -- who has a call outstanding at each snapshot: told to publish more than has returned
@@ -415,7 +496,7 @@ def processLine (line : String) : String :=
                 match runSegments cfg prods.length pendings init segs #[] with
                 | none => "REJECT:reconstructed-schedule-not-enabled"
                 | some (s, sns) =>
-                  match printModel prods s with
+                  match printModel cfg prods s with
                   | .list xs => toString (SExp.list (xs ++ [.list (.atom "snaps" :: sns.map printSnap)]))
                   | x => toString x
           s!"{model}\t{if spec then 1 else 0}\t{hyp}"
